@@ -153,11 +153,12 @@ def worker(fn):
 def run(rep, tier, only=None):
     global _B
     snapshot.activate()
+    C35.UNROLL = 3          # unrolling 4 times already costs 13 minutes and leaves two loop kernels undecided within the query timeout; both tiers use 3
     _B = harness.build_template('c21t', TEMPLATE)
     jobs = [k for k in KERNELS if not only or only in k]
     rep.functions += ['generated code of %d def functions whose locals may be unbound when read or deleted (FlowControl.ControlFlowAnalysis facts cf_maybe_null / cf_is_null -> '
                       'ExprNodes.NameNode unbound checks, Nodes.TryFinallyStatNode exception copy of the finally clause, except-as unbinding) [%s]' % (len(KERNELS), build.sha(_B.cfile))]
-    rep.bounds += ['every combination of success / failure of every fallible call in the kernel, loops unrolled 3 times (longer iterations are outside)',
+    rep.bounds += ['every combination of success / failure of every fallible call in the kernel, loops unrolled %d times (longer iterations are outside)' % C35.UNROLL,
                    'claim: a local that is unbound when read never reaches the C-API or a dereference as NULL, and NULL is returned exactly when an exception is set; '
                    'the native replay compares value / exception class with the same source run by CPython',
                    'outside: closures and cell variables, lenient-mode compilation, class and module scope, generators, NameError for globals (C26)']
